@@ -117,7 +117,7 @@ func (d *decodeInput) replay() map[string]interface{} {
 // would complete the second, so any entry point that does not cut its buffer down to the new input accepts it.
 func sweepPrefixAfterFull(c *Ctx, fn func(in *decodeInput, seq int64)) {
 	var full [][]byte
-	for _, m := range c08Msgs[:11] {
+	for _, m := range c08Msgs[:12] {
 		full = append(full, m)
 	}
 	full = append(full, c01Big)
@@ -144,7 +144,7 @@ func sweepPrefixAfterFull(c *Ctx, fn func(in *decodeInput, seq int64)) {
 // sweepFullAfterPrefix: the reverse order - a reused Message is given a truncated datagram (rejected), then a complete
 // message: the rejected bytes must not count for anything (nothing is "pending").
 func sweepFullAfterPrefix(c *Ctx, fn func(in *decodeInput, seq int64)) {
-	full := append(append([][]byte{}, c08Msgs[:11]...), c01Big)
+	full := append(append([][]byte{}, c08Msgs[:12]...), c01Big)
 	var seq int64
 	for xi, x := range full {
 		for _, k := range []int{1, 19, 20, 21, 24, len(x) - 4, len(x) - 1} {
@@ -165,7 +165,7 @@ func sweepFullAfterPrefix(c *Ctx, fn func(in *decodeInput, seq int64)) {
 // sweepPrefixInRoomySlice: a truncated datagram handed over as buf[:n] of a larger buffer whose spare capacity still
 // holds the rest of the message (a read buffer that received the complete message a moment ago): capacity is not content.
 func sweepPrefixInRoomySlice(c *Ctx, fn func(in *decodeInput, seq int64)) {
-	full := append(append([][]byte{}, c08Msgs[:11]...), c01Big)
+	full := append(append([][]byte{}, c08Msgs[:12]...), c01Big)
 	var seq int64
 	for _, x := range full {
 		var cuts []int
